@@ -23,6 +23,7 @@ partial def parsePV (j : Json) : PV :=
   | "str" => .str (getStr j "v")
   | "float" => .float (getBool j "nan") (getStr j "v")
   | "atom" => .atom (getBool j "ref") (getNat j "id")
+  | "val" => .val (getStr j "k") (getStr j "v")
   | "hook" => .hook (getNat j "id") (match j.getObjVal? "v" with | .ok p => parsePV p | _ => .none)
   | "list" => .list ((getArr j "v").map parsePV)
   | "tuple" => .tuple ((getArr j "v").map parsePV)
@@ -36,6 +37,7 @@ partial def jPV : PV → Json
   | .str s => Json.mkObj [("t", "str"), ("v", Json.str s)]
   | .float n r => Json.mkObj [("t", "float"), ("nan", Json.bool n), ("v", Json.str r)]
   | .atom b i => Json.mkObj [("t", "atom"), ("ref", Json.bool b), ("id", toJson i)]
+  | .val k r => Json.mkObj [("t", "val"), ("k", Json.str k), ("v", Json.str r)]
   | .hook i s => Json.mkObj [("t", "hook"), ("id", toJson i), ("v", jPV s)]
   | .list l => Json.mkObj [("t", "list"), ("v", Json.arr (l.map jPV).toArray)]
   | .tuple l => Json.mkObj [("t", "tuple"), ("v", Json.arr (l.map jPV).toArray)]
@@ -88,12 +90,6 @@ def wfB (g : Graph) : Bool :=
 /-- identities dill hands out to objects it pickles by value (the harness renames them) -/
 def freshBase : Nat := 1000000
 
-/-- the harness's inverting node factory: a payload `{"__c12hook__": id, "v": s}` is turned back into
-the object `id` whose `serialise()` returns that dict -/
-def invHook : PV → PV
-  | .dict [(.str "__c12hook__", .int id), (.str "v", s)] => .hook id.toNat (.dict [(.str "__c12hook__", .int id), (.str "v", s)])
-  | p => p
-
 def jRound (shared : Bool) (orig : Graph) (r : Except Err Graph) : Json :=
   match r with
   | .error .keyError => Json.mkObj [("ok", Json.bool false), ("err", "KeyError")]
@@ -121,6 +117,12 @@ def c12Step (_ : Unit) (j : Json) : Unit × Json :=
       | [k, v] => (asStr k, parseSNode v)
       | _ => ("", { outputs := [], inputs := [], payload := none }))
     ((), Json.mkObj [("deser", jRound true { nodes := [], sinks := [] } (deserialise R data))])
+  | "eq2" =>
+    -- `a == b` and `b == a` for two separately built graphs (no payload object shared except opaque objects of the same identity)
+    let pg (k : String) : Graph := match j.getObjVal? k with
+      | .ok o => { nodes := (getArr o "nodes").map parseNode, sinks := (getArr o "sinks").map asStr }
+      | _ => { nodes := [], sinks := [] }
+    ((), Json.mkObj [("eq", Json.bool (graphEq false (pg "a") (pg "b"))), ("eq_rev", Json.bool (graphEq false (pg "b") (pg "a")))])
   | "reserved" => ((), Json.mkObj [("reserved", strs R), ("ctor", strs EkwVerif.Gen.nodeInitKw)])
   | _ => ((), Json.str "bad-op")
 
